@@ -46,7 +46,8 @@ def run_component_case(c, want_jac=True):
     """returns list of disagreement dicts (empty = agrees) and a summary"""
     out = []
     inputs = c["inputs"]; outputs = c["outputs"]
-    prob = comp_problem(c["factory"](), inputs)
+    allin = dict(inputs); allin.update(c.get("extra_inputs", {}))
+    prob = comp_problem(c["factory"](), allin)
     real = comp_outputs(prob, outputs)
     real_flat = flat_cat(real, outputs)
     consts = list(c.get("consts", []))
